@@ -295,13 +295,16 @@ class BytesInstruction(MichelsonInstruction, prim='BYTES'):
         a = cast(Union[NatType, IntType], stack.pop1())
         a.assert_type_in(NatType, IntType)
         int_val = int(a)
-        signed = isinstance(a, IntType)
-        if signed:
+        signed = not isinstance(a, NatType)
+        if int_val == 0:
+            length = 0
+        elif signed:
             length = (8 + (int_val + (int_val < 0)).bit_length()) // 8
         else:
             length = (7 + int_val.bit_length()) // 8
-        # NOTE: the shortest big-endian encoding of natural number or integer n
-        byte_val = int_val.to_bytes(length, 'big', signed=signed).lstrip(b'\x00')
+        # NOTE: the shortest big-endian encoding of natural number or integer n (two's complement for int,
+        # so a positive int keeps its leading sign byte: 128 -> 0x0080)
+        byte_val = int_val.to_bytes(length, 'big', signed=signed)
         res = BytesType.from_value(byte_val)
         stack.push(res)
         stdout.append(f'{cls.prim} / {repr(a)} => {repr(res)}')
